@@ -419,6 +419,79 @@ fn chunk_signed(acc: &mut Acc) -> usize {
     n
 }
 
+/// The same second transport for the operations whose body is a *buffered document* (XML, policy text): the payload the SDK
+/// wrote, sent chunk-signed in one and in two chunks. The typed input at the backend equals the generated one, exactly as
+/// when the same bytes travel as a plain signed body.
+fn chunk_signed_documents(acc: &mut Acc) -> usize {
+    use crate::sigref::*;
+    let ds = driver::all();
+    let date = "20240229T120000Z";
+    let cases: Vec<usize> = (0..ds.len()).filter(|di| !UNREACHABLE.contains(&ds[*di].name()) && op_model(ds[*di].name()).is_some_and(|m| m.input.iter().any(|x| x.pos == Pos::Payload && x.shape != "blob"))).collect();
+    let n = cases.len();
+    par_items(acc, &cases, |a, ci, di| {
+        let d = ds[*di].as_ref();
+        let labels = d.input_alt_labels();
+        let model = op_model(d.name()).expect("model");
+        // the input with the payload member present (required ones are present in the base value)
+        let present: Vec<usize> = labels.iter().position(|l| model.input.iter().any(|m| m.pos == Pos::Payload && format!(".{}=Some(base)", m.field) == *l)).into_iter().collect();
+        for alts in [present.clone(), vec![]] {
+            let Some(base) = sdk::capture(d, &alts, Addressing::Path) else { continue };
+            if base.body.is_empty() {
+                continue;
+            }
+            for n_chunks in [1usize, 2] {
+                if n_chunks == 2 && base.body.len() < 2 {
+                    continue; // (an empty chunk is the terminator: a 1-byte document has no two-chunk encoding)
+                }
+                let id = || format!("chunksigned-document/{}/{n_chunks}-chunk(s)/{}", d.name(), alts.iter().map(|i| labels[*i].as_str()).collect::<Vec<_>>().join("+"));
+                if !a.selected(&id) {
+                    continue;
+                }
+                a.eval();
+                a.nontrivial(fnv(id().as_bytes()));
+                let payload = base.body.clone();
+                let pieces: Vec<Vec<u8>> = if n_chunks == 1 { vec![payload.clone()] } else { vec![payload[..payload.len() / 2].to_vec(), payload[payload.len() / 2..].to_vec()] };
+                let mut r = base.req.clone();
+                for h in ["content-length", "x-amz-sdk-checksum-algorithm", "x-amz-checksum-crc32", "content-encoding", "x-amz-decoded-content-length", "authorization", "x-amz-content-sha256", "x-amz-date"] {
+                    r.remove_header(h);
+                }
+                r.headers.push(("content-encoding".into(), b"aws-chunked".to_vec()));
+                r.headers.push(("x-amz-decoded-content-length".into(), payload.len().to_string().into_bytes()));
+                let scope = Scope::new(AK, &date[..8], "us-east-1", "s3");
+                let mut signed: Vec<&str> = vec!["content-encoding", "x-amz-decoded-content-length"];
+                if r.get_header("content-md5").is_some() {
+                    signed.push("content-md5");
+                }
+                let seed = sign_v4_header(&mut r, SK, &scope, date, "STREAMING-AWS4-HMAC-SHA256-PAYLOAD", &signed);
+                let wire: Vec<u8> = encode_chunks(SK, &scope, date, &seed, &pieces).iter().flat_map(EncodedChunk::bytes).collect();
+                r.headers.push(("content-length".into(), wire.len().to_string().into_bytes()));
+                s3s::verif_hooks::set_now(None);
+                let (svc, log) = SvcCfg::with_auth().build();
+                let out = call(&svc, &r, body_one_frame(&wire));
+                let calls = backend_calls(&log);
+                let Some(rec) = calls.iter().find(|c| c.op == d.name()) else {
+                    a.outcome("[chunk-signed document] REQUEST NOT DELIVERED");
+                    a.fail(&format!("C02/chunk-signed-document-not-delivered/{}", d.name()), ci, id(), format!("the payload the SDK wrote for {} ({} bytes), sent chunk-signed in {n_chunks} chunk(s), was answered {}", d.name(), payload.len(), out.verdict()), json!({"request": r.describe()}));
+                    continue;
+                };
+                let diff = block_on(d.diff_input(&alts, rec)).unwrap_or_else(|e| vec![format!("body-stream: {e}")]);
+                let want_absent = d.input_absent(&alts);
+                let sdk_added = |f: &str| want_absent.contains(&f) && model.input.iter().any(|m| m.field == f && m.pos == Pos::Header && r.get_header(m.wire).is_some());
+                let bad: Vec<String> = diff.into_iter().filter(|f| !matches!(f.as_str(), "content_length" | "content_encoding" | "content_md5" | "checksum_algorithm") && !sdk_added(f)).collect();
+                if bad.is_empty() {
+                    a.outcome("[chunk-signed document] recorded input equals the generated input");
+                } else {
+                    a.outcome("[chunk-signed document] RECORDED INPUT DIFFERS");
+                    for b in bad {
+                        a.fail(&format!("C02/chunk-signed-document/decode/{}.{b}", d.name()), ci, id(), format!("{} sent chunk-signed: member {b} differs", d.name()), json!({"recorded": d.recorded_debug(rec).chars().take(800).collect::<String>()}));
+                    }
+                }
+            }
+        }
+    });
+    n
+}
+
 // ------------------------------------------------------------------ mutants of the XML payload
 
 /// E5 on the XML payload aws-sdk-s3 writes for the fully populated input of every operation that has one: every element and
@@ -739,7 +812,7 @@ fn reject(acc: &mut Acc, _tier: Tier) -> serde_json::Value {
 
 pub fn run(ctx: &Ctx) -> (Acc, Report) {
     let mut acc = ctx.acc();
-    let part = ctx.replay.as_deref().map(|r| if r.starts_with("fwd/") { "fwd" } else if r.starts_with("sdkdefault/") { "sdkdefault" } else if r.starts_with("chunksigned/") { "chunksigned" } else if r.starts_with("payload/") { "payload" } else { "rej" });
+    let part = ctx.replay.as_deref().map(|r| if r.starts_with("fwd/") { "fwd" } else if r.starts_with("sdkdefault/") { "sdkdefault" } else if r.starts_with("chunksigned/") { "chunksigned" } else if r.starts_with("chunksigned-document/") { "chunksigned-document" } else if r.starts_with("payload/") { "payload" } else { "rej" });
     let mut extra = serde_json::Map::new();
     if part.is_none_or(|p| p == "fwd") {
         if let serde_json::Value::Object(m) = forward(&mut acc, ctx.tier) {
@@ -751,6 +824,9 @@ pub fn run(ctx: &Ctx) -> (Acc, Report) {
     }
     if ctx.replay.as_deref().is_none_or(|r| r.starts_with("chunksigned/")) {
         extra.insert("chunk_signed_upload_cases".into(), json!(chunk_signed(&mut acc)));
+    }
+    if ctx.replay.as_deref().is_none_or(|r| r.starts_with("chunksigned-document/")) {
+        extra.insert("operations_with_a_document_body_sent_chunk_signed".into(), json!(chunk_signed_documents(&mut acc)));
     }
     if ctx.replay.as_deref().is_none_or(|r| r.starts_with("payload/")) {
         extra.insert("operations_with_payload_mutants".into(), json!(payload_mutants(&mut acc)));
@@ -765,7 +841,7 @@ pub fn run(ctx: &Ctx) -> (Acc, Report) {
     let k = ctx.tier.pick(1, 2);
     let rep = Report {
         level: "exploration",
-        rule: format!("forward: 95 operations x (base() + every single deviation of every modelled input member over the alphabet of its wire position{}) x {{direct path-style, direct virtual-hosted-style under a host parser, proxied}}; each execution = aws-sdk-s3 encodes, the adapter decodes, the recording backend's typed input is compared field by field (streams by bytes) with the generated input. rejection: for every SDK-encoded request with each optional header/query/meta member present once: every instance of duplicate (same / other value, either order) of each single-valued member, a value outside the type of each typed member, removal of each required member, Content-Length +-1/0 and a short body for buffered bodies. Distinct = distinct recorded inputs / distinct mutants.", if k == 2 { " + every pair of deviations of different members" } else { "" }),
+        rule: format!("forward: 95 operations x (base() + every single deviation of every modelled input member over the alphabet of its wire position{}) x {{direct path-style, direct virtual-hosted-style under a host parser, proxied}}; each execution = aws-sdk-s3 encodes, the adapter decodes, the recording backend's typed input is compared field by field (streams by bytes) with the generated input. second transport: PutObject / UploadPart sent chunk-signed (every header/query member, 3 chunkings), and the document the SDK wrote for each of the 29 operations with a buffered XML / text body sent chunk-signed in one and in two chunks: the same typed input arrives. rejection: for every SDK-encoded request with each optional header/query/meta member present once: every instance of duplicate (same / other value, either order) of each single-valued member, a value outside the type of each typed member, removal of each required member, Content-Length +-1/0 and a short body for buffered bodies. Distinct = distinct recorded inputs / distinct mutants.", if k == 2 { " + every pair of deviations of different members" } else { "" }),
         exhaustive: true,
         extra: serde_json::Value::Object(extra),
         assumptions: vec![
